@@ -148,6 +148,7 @@ class State:
         self.cur = 0
         self.frame_n = 0
         self.heap = sym.Heap()
+        self.heap.owner = self
         self.store = {}
         self.events = []
         self.ghost = {}
@@ -171,6 +172,7 @@ class State:
         s.frames = {k: (dict(v[0]), v[1], set(v[2])) for k, v in self.frames.items()}
         s.cur, s.frame_n = self.cur, self.frame_n
         s.heap = self.heap.copy()
+        s.heap.owner = s
         s.store = {k: (copy.copy(v) if isinstance(v, (list, dict, set)) else v) for k, v in self.store.items()}
         s.events = list(self.events)
         s.ghost = dict(self.ghost)
@@ -305,6 +307,7 @@ class Interp:
         self.solver_checks = 0
         self.on_yield = None
         self.fn_stack = []
+        self.loop_paths = {}
 
     # ---------------------------------------------------------- utilities
     def feasible(self, st):
@@ -1254,7 +1257,7 @@ class Interp:
             st.assume(a)
             entry.assume(a)
         # 1. invariant holds on entry
-        self.oblige(st, f'{name}.inv_entry', spec.inv(LoopCtx(st, k0, n, elem, entry, self)), tag=spec.tag, split=True)
+        self.oblige(st, f'{name}.inv_entry', self._inv(spec, LoopCtx(st, k0, n, elem, entry, self)), tag=spec.tag, split=True)
         # 2. arbitrary iteration
         body_st = st.copy()
         k = z3.Int(sym.fresh_name('k'))
@@ -1263,7 +1266,7 @@ class Interp:
         body_st.emit('loop_body', loop=name)
         self.havoc(body_st, node, spec)
         body_st.assume(k >= 0)
-        body_st.assume(spec.inv(LoopCtx(body_st, k, n, elem, entry, self)))
+        body_st.assume(self._inv(spec, LoopCtx(body_st, k, n, elem, entry, self)))
         exit_st = body_st.copy()
         exit_st.frozen = outer_frozen
         self._frame_base = {(m[1].name, m[2]): (body_st.heap.arr(m[1], m[2]), [body_st.lookup(nm).z for nm in m[3]])
@@ -1292,9 +1295,10 @@ class Interp:
         for s0, _ in starts:
             for s, out in self.exec_block(node.body, s0):
                 self.check_frame(s, spec, name, ghost_before)
+                self.loop_paths.setdefault(name, []).append((s, out))
                 if out[0] in ('normal', 'continue'):
                     self.oblige(s, f'{name}.inv_preserved',
-                                spec.inv(LoopCtx(s, k + 1, n, elem, entry, self)), tag=spec.tag, split=True)
+                                self._inv(spec, LoopCtx(s, k + 1, n, elem, entry, self)), tag=spec.tag, split=True)
                     if dec0 is not None:
                         dec1 = spec.decreases(LoopCtx(s, k + 1, n, elem, entry, self))
                         self.oblige(s, f'{name}.decreases', z3.And(dec1 < dec0, dec0 >= 0), tag='top')
@@ -1322,6 +1326,15 @@ class Interp:
                     if not b:
                         s2.ghost['$k_' + name] = SV(INT, k)
                         yield s2, OUT_NORMAL
+
+    def _inv(self, spec, ctx):
+        # invariant evaluation is ghost code: its heap reads are not lock-discipline events
+        n0 = len(ctx.st.notes)
+        n1 = len(ctx.entry.notes)
+        r = spec.inv(ctx)
+        del ctx.st.notes[n0:]
+        del ctx.entry.notes[n1:]
+        return r
 
     def assigned_names(self, node):
         names = set()
@@ -1410,12 +1423,18 @@ class Interp:
         yield st, OUT_NORMAL
 
     # ---------------------------------------------------------- entry point
-    def run_function(self, fn_node, st, args=None):
-        """execute the body of fn_node in state st (env must already bind params)."""
+    def run_function(self, fn_node, st, args=None, stmt=None):
+        """execute the body of fn_node (or only the statement selected by `stmt`,
+        e.g. 'For#1') in state st (env must already bind params)."""
         from . import source
         self.loop_nodes = {**source.loops_in(fn_node), **self.loop_nodes}
+        body = fn_node.body
+        if stmt is not None:
+            if stmt not in self.loop_nodes:
+                raise Unsupported(f'statement selector {stmt} not found')
+            body = [self.loop_nodes[stmt]]
         results = []
-        for s, out in self.exec_block(fn_node.body, st):
+        for s, out in self.exec_block(body, st):
             results.append((s, out))
             if len(results) > self.max_paths:
                 raise Unsupported('too many paths')
